@@ -216,6 +216,7 @@ type c04Call struct {
 	method             int
 	blen, mode, cut    int
 	reqClose           bool
+	entry              int // 0 Do, 1 DoTimeout, 2 DoDeadline
 	readK              int
 	tag                int
 	res                string
@@ -226,7 +227,7 @@ type c04Call struct {
 
 // c04Decode turns 9 script bytes into a call (total, so that shrunk inputs stay valid).
 func c04Decode(b []byte, stream bool, maxBody int) *c04Call {
-	c := &c04Call{method: int(b[0]) % 4, mode: int(b[3]) % 6, reqClose: b[6]%4 == 0}
+	c := &c04Call{method: int(b[0]) % 4, mode: int(b[3]) % 6, reqClose: b[6]%4 == 0, entry: int(b[6]/4) % 3}
 	lens := []int{0, 10, 64, 100, 163, 700, 5000}
 	c.blen = lens[int(b[1])%len(lens)]
 	if b[2]%5 == 0 {
@@ -262,8 +263,12 @@ func c04b2b(b bool) byte {
 }
 
 type c04Doer interface {
+	Do(req *fasthttp.Request, resp *fasthttp.Response) error
 	DoTimeout(req *fasthttp.Request, resp *fasthttp.Response, timeout time.Duration) error
+	DoDeadline(req *fasthttp.Request, resp *fasthttp.Response, deadline time.Time) error
 }
+
+var c04Entries = []string{"Do", "DoTimeout", "DoDeadline"}
 
 // c04Do performs one call and consumes the response the way the script says.
 func c04Do(cl c04Doer, host string, c *c04Call, stream bool) {
@@ -278,7 +283,16 @@ func c04Do(cl c04Doer, host string, c *c04Call, stream bool) {
 	if c.reqClose {
 		req.SetConnectionClose()
 	}
-	err := cl.DoTimeout(req, resp, c04Timeout)
+	// every entry point; the one without a deadline only where the server is scripted to answer completely
+	var err error
+	switch {
+	case c.entry == 0 && (c.mode == 0 || c.mode == 1):
+		err = cl.Do(req, resp)
+	case c.entry == 2:
+		err = cl.DoDeadline(req, resp, time.Now().Add(c04Timeout))
+	default:
+		err = cl.DoTimeout(req, resp, c04Timeout)
+	}
 	c.res = c04Class(err)
 	if err != nil {
 		fasthttp.ReleaseResponse(resp)
@@ -510,6 +524,7 @@ func c04Pipe(a [][]byte) *Case {
 	type pcall struct {
 		tag     int
 		method  int // 0 GET 1 POST 2 HEAD
+		entry   int // 0 Do, 1 DoTimeout, 2 DoDeadline
 		delay   int
 		timeout time.Duration
 		done    bool
@@ -540,7 +555,7 @@ func c04Pipe(a [][]byte) *Case {
 			return c, nil
 		}
 		for i := 0; i+1 < len(a[1]) && len(calls) < 12; i += 2 {
-			c := &pcall{tag: len(calls) + 1, method: int(a[1][i]) % 3, timeout: 1000 * time.Second}
+			c := &pcall{tag: len(calls) + 1, method: int(a[1][i]) % 3, entry: int(a[1][i]/3) % 3, timeout: 1000 * time.Second}
 			if timed && mode != 4 {
 				c.delay = []int{0, 0, 2, 8}[int(a[1][i+1])%4]
 				c.timeout = []time.Duration{1000 * time.Second, 5 * time.Second, 3 * time.Second}[int(a[1][i+1]/4)%3]
@@ -570,7 +585,16 @@ func c04Pipe(a [][]byte) *Case {
 				} else if c.method == 1 {
 					req.SetBodyString("x")
 				}
-				err := pc.DoTimeout(req, resp, c.timeout)
+				// every entry point of PipelineClient (a held-back upload needs its deadline)
+				var err error
+				switch {
+				case upload == nil && c.entry == 0:
+					err = pc.Do(req, resp)
+				case upload == nil && c.entry == 2:
+					err = pc.DoDeadline(req, resp, time.Now().Add(c.timeout))
+				default:
+					err = pc.DoTimeout(req, resp, c.timeout)
+				}
 				mu.Lock()
 				c.err, c.done = err, true
 				if err == nil {
@@ -643,9 +667,9 @@ func c04Pipe(a [][]byte) *Case {
 				want = ""
 			}
 			if c.gotTag != fmt.Sprint(c.tag) {
-				viol = append(viol, [2]string{"foreign-response", fmt.Sprintf("pipelined call %d (%s) returned the response tagged %q", c.tag, []string{"GET", "POST", "HEAD"}[c.method], c.gotTag)})
+				viol = append(viol, [2]string{"foreign-response", fmt.Sprintf("pipelined call %d (%s via %s) returned the response tagged %q", c.tag, []string{"GET", "POST", "HEAD"}[c.method], c04Entries[c.entry], c.gotTag)})
 			} else if c.body != want {
-				viol = append(viol, [2]string{"foreign-body", fmt.Sprintf("pipelined call %d (%s) returned the body %q, its own response has the body %q", c.tag, []string{"GET", "POST", "HEAD"}[c.method], c.body, want)})
+				viol = append(viol, [2]string{"foreign-body", fmt.Sprintf("pipelined call %d (%s via %s) returned the body %q, its own response has the body %q", c.tag, []string{"GET", "POST", "HEAD"}[c.method], c04Entries[c.entry], c.body, want)})
 			}
 		}
 		mu.Unlock()
@@ -784,7 +808,7 @@ func init() {
 		ID: "C04",
 		Rule: "host: 2..10 sequential tagged calls on a HostClient (GET/POST/HEAD/PUT x body 0..5000 x server: full keep-alive | full close | cut inside head | cut after k body bytes | stall inside head | stall after k body bytes (tail arrives later) " +
 			"x request Connection: close x streamed body closed after 0|1|half|k|all bytes), StreamResponseBody with MaxResponseBodySize 0|64|200, LIFO/FIFO; " +
-			"pipe: 2..12 pipelined GET/POST/HEAD requests written in issue order, answered in order, with and without slow answers, call timeouts and a PipelineClient.ReadTimeout shorter than the slowest answers (late responses), optionally a second wave of requests after the late answers, or slow uploads (request body streams held back past the call's deadline while the writer is inside the request write, further requests behind them); " +
+			"every call goes through one of the three entry points Do / DoTimeout / DoDeadline (Do only where the scripted server answers completely); pipe: 2..12 pipelined GET/POST/HEAD requests written in issue order, answered in order, with and without slow answers, call timeouts and a PipelineClient.ReadTimeout shorter than the slowest answers (late responses), optionally a second wave of requests after the late answers, or slow uploads (request body streams held back past the call's deadline while the writer is inside the request write, further requests behind them); " +
 			"conc: 3..6 concurrent callers on a Client over two hosts with the same scripts; " +
 			"bodies are made of tag-carrying well-formed responses written in record-aligned segments; non-trivial = at least 2 calls (4 for conc); distinct = distinct input",
 		Assumptions: []string{
